@@ -436,8 +436,6 @@ def class_spec(rng):
         return {"class_path": "vf.fixtures.zoo.KwOnly", "dict_kwargs": {"z": rng.randrange(9), "w": "q"}}
     if r < 0.88:
         return {"class_path": "vf.fixtures.zoo.WithDictKwargs", "init_args": {"a": 3}, "dict_kwargs": {"extra": [1, 2]}}
-    if r < 0.91:
-        return {"class_path": "vf.fixtures.zoo.BadDefault"}  # not acceptable: fails while its defaults are added
     return {"class_path": "vf.fixtures.zoo.SubList", "init_args": {"items": [1, 2], "t": (3, "q")}}
 
 
